@@ -46,7 +46,8 @@ def claimedOf (b : Bytes) : Nat :=
         else if c1.hdr.nbPoints > maxPoints then 0
         else if c1.hdr.nbAnalogByFrame > maxSubframes then 0
         else if c1.hdr.nbAnalogByFrame > 0 ∧ c1.hdr.nbAnalogs > maxChannels then 0
-        else c1.hdr.nbFrames * (4 * c1.hdr.nbPoints + c1.hdr.nbAnalogByFrame * c1.hdr.nbAnalogs + 1)
+        -- every frame gets `nbAnalogByFrame` sub-frame objects even when there is no channel (`Analogs(nbAnalogByFrame)`): they count
+        else c1.hdr.nbFrames * (4 * c1.hdr.nbPoints + c1.hdr.nbAnalogByFrame * (c1.hdr.nbAnalogs + 1) + 1)
       | _ => 0
     | _ => 0
   | _ => 0
